@@ -98,6 +98,7 @@ def c14(tier, seed):
         "functions_under_contract": [
             "bindgen/features.rs: RustTarget::stable, RustTarget::minor, RustTarget::is_compatible, RustFeatures::new, RustFeatures::new_with_latest_edition, RustEdition::is_available, RustTarget::latest_edition, RustEdition::from_str (literal inputs), LATEST_STABLE_RUST, EARLIEST_STABLE_RUST",
             "bindgen/ir/function.rs: FunctionSig::abi, FunctionSig::is_variadic (Verus unit fn_abi: the ABI gating site; override lookup = one uninterpreted accessor)",
+            "bindgen/options/mod.rs: Builder::rust_edition (unit edition; found inside the options! macro invocation, rule R34 for `mut self`): the edition asked for is recorded as given, whatever the target is at that moment",
             "bindgen/lib.rs: BindgenOptions::set_rust_target (unit edition): choosing a target leaves the chosen edition (and the features) alone, so Builder::generate sees the pair the user asked for in whatever order the two builder calls were made",
             "bindgen/lib.rs: the feature-synchronisation / edition-validation expression of Builder::generate (Verus unit edition, block extracted by rule R18): unsupported edition -> BindgenError::UnsupportedEdition, otherwise RustFeatures::new(target, edition) / new_with_latest_edition(target)",
             "bindgen/codegen/helpers.rs: ast_ty::raw_type (Verus unit raw_type: ::core::ffi::X only when core_ffi_c)",
@@ -268,7 +269,7 @@ def c12(tier, seed):
         "functions_under_contract": ["bindgen/lib.rs: the input-path checks of Bindings::generate (missing -> NotExist, directory -> FolderAsHeader, unreadable -> InsufficientPermissions; file system uninterpreted) and the per-diagnostic step of parse() (severity Error or Fatal -> ClangDiagnostic error) -- blocks extracted by rule R18, unit gen_errors"] + LAYOUT_FNS + ["bindgen/ir/comp.rs: bitfields_to_allocation_units (no-clang-offset mode)", "and the functions of units macro_type, edges, derive_gate, derives, fn_abi (see C05, C07-C09, C14)",
                                      "bindgen/ir/analysis/*.rs: every insert / forward / constrain of the seven analyses under contract answers `Changed` exactly when the fact it owns strictly moved up its lattice (the `Changed`/`Same` clauses of units lattice_insert, lattice_constrain, has_float, has_tp_array, has_destructor, constrain, template_params): with the driver theorem of unit analyze this is the termination argument of the fix-point loops",
                                      "bindgen/ir/context.rs: ItemResolver::resolve (unit resolver): the reference/alias-following loop TERMINATES on every finite IR, cyclic or not (decreases: items not yet seen), never indexes outside the item table, and returns an item of the table",
-                                     "bindgen/codegen/mod.rs: <Vtable as CodeGenerator>::codegen under --vtable-generation (unit typedef_methods: the guard closure of the `if` and the signature lookup of the slot generator, R18): every virtual method the guard lets through has a function type of its own, so the lookup finds one - no panic (found and repaired F40); the pointee lookup of the block-pointer arm of <Type as CodeGenerator>::codegen (--generate-block; F42) and the signature lookup of <Function as CSerialize>::serialize (--wrap-static-fns; F43) look behind typedefs, where the IR invariant gives a function type; that `iter().all(guard)` covers what `filter_map` visits is std's meaning, not under contract", "bindgen/ir/context.rs: BindgenContext::rust_mangle (unit rust_mangle; rule R32: &str / String as character sequences, the keyword list one uninterpreted predicate): the string that reaches proc_macro2::Ident::new (which panics on a non-identifier) contains no `@`, `?` or `$` at any position, whatever the C name contains; names that need no mangling are unchanged", "bindgen/ir/context.rs: the kind-mapping statement of build_builtin_ty does not panic on any builtin kind (found and repaired F12: `_Complex int`)",
+                                     "bindgen/codegen/mod.rs: <Vtable as CodeGenerator>::codegen under --vtable-generation (unit typedef_methods: the guard closure of the `if` and the signature lookup of the slot generator, R18): every virtual method the guard lets through has a function type of its own, so the lookup finds one - no panic (found and repaired F40); the pointee lookup of the block-pointer arm of <Type as CodeGenerator>::codegen (--generate-block; F42) and the signature lookup of <Function as CSerialize>::serialize (--wrap-static-fns; F43) look behind typedefs, where the IR invariant gives a function type; that `iter().all(guard)` covers what `filter_map` visits is std's meaning, not under contract", "bindgen/ir/context.rs: the recording statement of BindgenContext::process_replacements (unit codegen_guards, if-let statement R18): a replaces= annotation whose item never came into existence is ignored, its id is only turned into a type id after it was found in the item table", "bindgen/ir/context.rs: BindgenContext::rust_mangle (unit rust_mangle; rule R32: &str / String as character sequences, the keyword list one uninterpreted predicate): the string that reaches proc_macro2::Ident::new (which panics on a non-identifier) contains no `@`, `?` or `$` at any position, whatever the C name contains; names that need no mangling are unchanged", "bindgen/ir/context.rs: the kind-mapping statement of build_builtin_ty does not panic on any builtin kind (found and repaired F12: `_Complex int`)",
                                      "bindgen/ir/function.rs: FunctionSig::abi never accepts an ABI that cannot be printed (ClangAbi::Unknown -> UnsupportedAbi; found and repaired F11: Function::codegen and <ClangAbi as ToTokens> panicked on it); bindgen/ir/var.rs: the character-literal arm of Var::parse (found and repaired F10)",
                                      "bindgen/codegen/mod.rs: the signature statement of Method::codegen_method and bindgen/ir/ty.rs: the constant-array arm of Type::from_clang_ty (unit codegen_guards): a method whose signature is not a function type (declared through a typedef) is left out, an array whose element type cannot be expressed gets opaque elements - neither aborts (found and repaired F29, F30)",
                                      "bindgen/codegen/mod.rs: the three naming statements of <Enum as CodeGenerator>::codegen (unit enum_consts, let-statements R18): the parent's canonical name is None exactly for top-level enums and neither `parent_canonical_name.as_ref().unwrap()` is reached with None; bindgen/ir/analysis/template_params.rs: UsedTemplateParameters::constrain and its helpers (unit template_params): the table `.expect()`s and the monotonicity `assert!` cannot fire given the table invariant",
@@ -290,7 +291,7 @@ INCRATE_TRUST = ["in-crate harness modules pulled in by cfg(kani) hook lines; Ty
 def c04(tier, seed):
     def extra():
         return units_incrate.run_spec(units_incrate.abi_spec())
-    return _verus_prop("C04", tier, seed, [("fnsig", None, None), ("ptr_lowering", None, None), ("fn_abi", r"::FunctionSig::(abi|is_variadic)::", None), ("link_name", None, None), ("method_wrapper", None, None), ("var_const", None, None), ("attrs", None, None), ("fn_args", None, None), ("mangling", None, None), ("builtin_ty", None, None), ("char_macro", r"::var_value@nonconst_initialised_F39::", None), ("typedef_methods", r"::fn_decl_signature::", None), ("prim_types", r"::type_from_named::", None)], {
+    return _verus_prop("C04", tier, seed, [("fnsig", None, None), ("ptr_lowering", None, None), ("fn_abi", r"::FunctionSig::(abi|is_variadic)::", None), ("link_name", None, None), ("method_wrapper", None, None), ("var_const", None, None), ("attrs", None, None), ("fn_args", None, None), ("mangling", None, None), ("builtin_ty", None, None), ("char_macro", r"::var_value@nonconst_initialised_F39::", None), ("typedef_methods", r"::fn_decl_signature::", None), ("prim_types", r"::(type_from_named|float_kind_rust_type)::", None)], {
         "trusted_base": INCRATE_TRUST + ["calling-convention oracle: clang-c/Index.h CXCallingConv values x Rust reference ABI strings (kani_incrate/function_abi.rs)"],
         "functions_under_contract": ["bindgen/ir/function.rs: get_abi (Kani in-crate), FunctionSig::abi, FunctionSig::is_variadic (Verus unit fn_abi)",
                                      "bindgen/codegen/mod.rs: utils::fnsig_argument_type, utils::fnsig_return_ty_internal (Verus unit fnsig); the Pointer/Reference arm of <Type as TryToRustTy>::try_to_rust_ty (Verus unit ptr_lowering, block extracted by rule R18)",
@@ -301,6 +302,7 @@ def c04(tier, seed):
                                      "bindgen/ir/function.rs: cursor_mangling, is_itanium_thunk and bindgen/clang.rs: the ABI-kind statement of TargetInfo::new (unit mangling; while-let R19, str operations as Seq-specified env functions R21): of the symbols libclang lists for a C++ function the binding names the last one that is the function itself - for a destructor under the Itanium ABI the complete-object destructor (never the deleting one), never a this-adjusting or covariant-return thunk (found and repaired F23); the Microsoft rules apply only to *-msvc targets",
                          "bindgen/codegen/mod.rs: the signature lookup of <Function as CodeGenerator>::codegen (unit typedef_methods, statements R18): a non-static member function declared through a typedef of a function type - whose function type has no `this` - is not declared at all (found and repaired F41: it was declared without its receiver)",
             "bindgen/codegen/mod.rs: utils::type_from_named (unit prim_types, shared with C10): a parameter, return value or global spelled with a <stdint.h>/<stddef.h> name gets the Rust primitive of the same width AND sign (ssize_t is isize, not usize)",
+            "bindgen/codegen/helpers.rs: ast_ty::float_kind_rust_type (unit prim_types, shared with C02): a floating parameter or return value is a Rust FLOAT of the C size wherever Rust has one (an 8-byte long double is f64, not u64: it travels in floating-point registers)",
             "bindgen/ir/var.rs: the value statement of Var::parse (unit char_macro, witness only): a non-const global must not become a Rust constant - known finding F39",
             "bindgen/ir/context.rs: the kind-mapping statement of BindgenContext::build_builtin_ty (unit builtin_ty, shared with C02): a parameter or return value of a builtin C/C++ type gets the bindgen kind of that very type (char32_t is 32 bits wide, not 16)",
                                      "bindgen/clang.rs: the per-token predicate of Cursor::has_attrs (unit attrs, closure R18): a token of an unexposed attribute names `noreturn` / `_Noreturn` / `warn_unused_result` only when it is of the attribute's token kind and spells exactly that name",
@@ -315,11 +317,11 @@ def c04(tier, seed):
 
 
 def c05(tier, seed):
-    return _verus_prop("C05", tier, seed, [("macro_type", None, None), ("eval_int", None, None), ("char_macro", r"^(?!.*@nonconst_initialised_F39)", None), ("builtin_ty", None, None), ("cexpr_tokens", None, None)], {
+    return _verus_prop("C05", tier, seed, [("macro_type", None, None), ("eval_int", None, None), ("char_macro", r"^(?!.*@nonconst_initialised_F39)", None), ("builtin_ty", None, None), ("cexpr_tokens", None, None), ("prim_types", r"::type_from_named::", None)], {
         "trusted_base": ["extraction rules R1-R11; env/macro_type_env.rs: uninterpreted option reads; assume_specification for i64::from(u8|u16|u32) (lossless widening)",
                          "C-model table kind_bits/kind_signed written from the kinds' names (contracts/macro_type.py)",
                          "env/eval_int_env.rs: each libclang evaluator entry point is a distinct uninterpreted function of the result handle (rule R20: `unsafe { f(x) }` -> `{ f(x) }`, FFI functions are safe stubs); an out-of-range `u64 as i64` cast is the same (unspecified but fixed) function on both sides of the contract"],
-        "functions_under_contract": ["bindgen/ir/var.rs: the function-like-macro guard of Var::parse (unit char_macro, statements R18 up to the use of the evaluated value: a function-like macro never reaches the expression evaluator, with or without callbacks; found and repaired F31) and the `is_float` statement (a floating-point constant only for float / double variables; found and repaired F32)", "bindgen/clang.rs: ClangToken::as_cexpr_token (unit cexpr_tokens): every token of a macro body except comments reaches the cexpr evaluator, under the kind libclang reports and with its spelling - dropping an operator keyword would leave a different well-formed expression", "bindgen/ir/var.rs: the value statement of Var::parse (unit char_macro, let-statement R18): the constant a variable's initialiser becomes has the shape of the variable's type (an integer or bool for integer types, a float for float / double, otherwise at most a string)", "bindgen/ir/var.rs: default_macro_constant_type", "bindgen/ir/int.rs: IntKind::is_signed, IntKind::known_size",
+        "functions_under_contract": ["bindgen/ir/var.rs: the function-like-macro guard of Var::parse (unit char_macro, statements R18 up to the use of the evaluated value: a function-like macro never reaches the expression evaluator, with or without callbacks; found and repaired F31) and the `is_float` statement (a floating-point constant only for float / double variables; found and repaired F32)", "bindgen/codegen/mod.rs: utils::type_from_named (unit prim_types, shared with C04/C10): a constant or enum declared through a <stdint.h>/<stddef.h> name gets the Rust primitive of the same width and SIGN (ptrdiff_t is isize)", "bindgen/clang.rs: ClangToken::as_cexpr_token (unit cexpr_tokens): every token of a macro body except comments reaches the cexpr evaluator, under the kind libclang reports and with its spelling - dropping an operator keyword would leave a different well-formed expression", "bindgen/ir/var.rs: the value statement of Var::parse (unit char_macro, let-statement R18): the constant a variable's initialiser becomes has the shape of the variable's type (an integer or bool for integer types, a float for float / double, otherwise at most a string)", "bindgen/ir/var.rs: default_macro_constant_type", "bindgen/ir/int.rs: IntKind::is_signed, IntKind::known_size",
                                      "bindgen/ir/context.rs: the kind-mapping statement of BindgenContext::build_builtin_ty (unit builtin_ty, shared with C02/C04): the type of a const variable and the underlying type of an enum get the bindgen integer kind of that very C type, so the Rust type has its width and sign (char32_t: 32 bits, unsigned)",
                                      "bindgen/clang.rs: EvalResult::kind, EvalResult::as_int (which libclang getter supplies the value of a const initialiser / fallback macro); Cursor::enum_val_signed / enum_val_unsigned / enum_val_boolean (enumerator values: the getter matching the signedness)",
                                      "bindgen/codegen/mod.rs: the repr-translation statement of <Enum as CodeGenerator>::codegen (unit macro_type, let-statement R18): the translated integer type has the enum's width and signedness",
@@ -335,7 +337,7 @@ def c06(tier, seed):
     return _verus_prop("C06", tier, seed, [("layout_tests", None, None), ("clang_layout", None, None), ("target_sel", None, None), ("field_data", None, None), ("type_layout", None, None)], {
         "trusted_base": ["extraction rules incl. R18 (closure and statement extraction) and span substitutions; env/layout_tests_env.rs: each assertion template (const-block / #[test] fn, offset_of! / addr_of! form) is an env constructor that records WHAT it asserts (field, number); message strings irrelevant",
                          "libclang's numbers (record size/alignment, field bit offsets) are the C compiler's for the selected target"],
-        "functions_under_contract": ["bindgen/ir/ty.rs: Type::layout (unit type_layout; rule R31: its recursive calls are checked against the callee contract): the size and alignment handed to both assertion generators are clang's for the type whenever clang computed them, and otherwise only an exact derivation (the compound's own computation, a zero-length array, a pointer, the target of a resolved reference) - never the numbers of a different type such as the definition of an instantiation clang did not complete", "bindgen/ir/comp.rs: RawField::new and the getters of FieldData (unit field_data): the bit offset (and bit-field width) clang reported for a member is stored as given and handed to code generation as stored", "bindgen/lib.rs: the `is_host_build` statement and the `--target=` insertion statement of Bindings::generate (unit target_sel, statements R18): libclang is told the effective target, in front of the other arguments, whenever no explicit target was given and the effective target is not the host triple itself (so every number it reports is for the target the assertions are emitted for)", "bindgen/clang.rs: Cursor::offset_of_field and Type::fallible_{size,align,layout} (unit clang_layout: the asserted numbers are libclang's, without truncation)",
+        "functions_under_contract": ["bindgen/ir/ty.rs: Type::layout (unit type_layout; rule R31: its recursive calls are checked against the callee contract): the size and alignment handed to both assertion generators are clang's for the type whenever clang computed them, and otherwise only an exact derivation (the compound's own computation, a zero-length array, a pointer, the target of a resolved reference) - never the numbers of a different type such as the definition of an instantiation clang did not complete", "bindgen/ir/context.rs: the statement of BindgenContext::instantiate_template that builds the instantiation's type (unit type_layout, let-statement R18): the stored layout - the numbers the instantiation's assertion states - is what clang computes for the instantiation's own type, not for the cursor it was found at (e.g. a pointer to it)", "bindgen/ir/comp.rs: RawField::new and the getters of FieldData (unit field_data): the bit offset (and bit-field width) clang reported for a member is stored as given and handed to code generation as stored", "bindgen/lib.rs: the `is_host_build` statement and the `--target=` insertion statement of Bindings::generate (unit target_sel, statements R18): libclang is told the effective target, in front of the other arguments, whenever no explicit target was given and the effective target is not the host triple itself (so every number it reports is for the target the assertions are emitted for)", "bindgen/clang.rs: Cursor::offset_of_field and Type::fallible_{size,align,layout} (unit clang_layout: the asserted numbers are libclang's, without truncation)",
                                      "bindgen/codegen/mod.rs: the per-member offset-assertion generator (filter_map closure) and the layout-assertion block of <CompInfo as CodeGenerator>::codegen (both extracted by rule R18); <TemplateInstantiation as CodeGenerator>::codegen (whole function)"],
         "assumptions": [
             "for structs/unions generated by CompInfo::codegen: with layout tests on, a known layout and no forward declaration exactly one assertion item is emitted; it asserts the size and the alignment libclang reported and embeds one offset assertion for every named data member with a known offset (= clang's bit offset / 8), none for bit-field units, none at all for opaque types; with layout tests off, nothing is emitted",
